@@ -1,0 +1,47 @@
+//go:build verif
+
+// Machine-checked contracts (comment-only; compiled only under the build tag "verif").
+// C12 (partial): planned per-batch increments; stale or arbitrary label values on pods never crash the patcher.
+package labelpatch
+
+//@ define plannedAt(batches, replicas, i) = clamp(scaled(batches[i].CanaryReplicas.Type, batches[i].CanaryReplicas.IntVal, batches[i].CanaryReplicas.StrVal, replicas, true), 0, replicas)
+
+//@ func calculateBatchReplicas
+//@ props C12
+//@ requires 0 <= currentBatch && currentBatch < len(batches) && workloadReplicas >= 0
+//@ ensures planned: result == plannedAt(batches, workloadReplicas, currentBatch) && 0 <= result && result <= workloadReplicas
+//@ pure
+
+// res[i] is the number of pods batch i adds under the plan (cumulative target of batch i minus that of batch i-1);
+// batches after the current one get 0.
+//@ func (*realPatcher).calculatePlannedStepIncrements
+//@ props C12
+//@ requires r != nil && 0 <= currentBatch && currentBatch < len(batches) && workloadReplicas >= 0
+//@ ensures shape: len(result) == len(batches) && fresh(result)
+//@ ensures first: result[0] == plannedAt(batches, workloadReplicas, 0)
+//@ ensures increments: forall i :: 1 <= i && i <= currentBatch ==> result[i] == plannedAt(batches, workloadReplicas, i) - plannedAt(batches, workloadReplicas, i - 1)
+//@ ensures later_batches_get_nothing: forall i :: currentBatch < i && i < len(batches) ==> result[i] == 0
+//@ loop 1 invariant 0 <= i && i <= currentBatch + 1 && len(res) == len(batches) && fresh(res)
+//@ loop 1 invariant forall j :: 0 <= j && j < i ==> res[j] == plannedAt(batches, workloadReplicas, j)
+//@ loop 1 invariant forall j :: currentBatch < j && j < len(batches) ==> res[j] == 0
+//@ loop 2 invariant 0 <= i$2 && i$2 <= currentBatch && len(res) == len(batches) && fresh(res)
+//@ loop 2 invariant forall j :: 0 <= j && j <= i$2 ==> res[j] == plannedAt(batches, workloadReplicas, j)
+//@ loop 2 invariant forall j :: i$2 < j && j <= currentBatch ==> res[j] == plannedAt(batches, workloadReplicas, j) - plannedAt(batches, workloadReplicas, j - 1)
+//@ loop 2 invariant forall j :: currentBatch < j && j < len(batches) ==> res[j] == 0
+
+// patchPodBatchLabel: whatever labels the pods carry (stale batch ids, hand-written values), the per-batch counters are
+// only indexed inside 1..len(batches); a pod is taken from the list of unlabelled pods only while that list is non-empty.
+//@ func (*realPatcher).patchPodBatchLabel
+//@ props C12
+//@ requires r != nil && ctx != nil && r.Client != nil && 0 <= ctx.CurrentBatch && ctx.CurrentBatch < len(r.batches) && ctx.Replicas >= 0
+//@ requires pods_set: forall q :: 0 <= q && q < len(pods) ==> pods[q] != nil
+//@ loop 1 invariant counters: len(plannedUpdatedReplicasForBatches) == len(r.batches) && fresh(plannedUpdatedReplicasForBatches) && -1 <= rangeindex && rangeindex < len(pods)
+//@ loop 1 invariant unlabelled_are_pods: forall q :: 0 <= q && q < len(updatedButUnpatchedPods) ==> updatedButUnpatchedPods[q] != nil
+//@ loop 1 invariant pods_kept: (forall q :: 0 <= q && q < len(pods) ==> pods[q] != nil) && (cap(updatedButUnpatchedPods) == 0 || fresh(updatedButUnpatchedPods)) && !fresh(pods)
+//@ loop 2 invariant counters: len(plannedUpdatedReplicasForBatches) == len(r.batches) && fresh(plannedUpdatedReplicasForBatches) && -1 <= rangeindex && rangeindex < len(pods)
+//@ loop 2 invariant pods_kept: (forall q :: 0 <= q && q < len(pods) ==> pods[q] != nil) && (cap(updatedButUnpatchedPods) == 0 || fresh(updatedButUnpatchedPods)) && !fresh(pods)
+//@ loop 2 invariant unlabelled_are_pods: forall q :: 0 <= q && q < len(updatedButUnpatchedPods) ==> updatedButUnpatchedPods[q] != nil
+//@ loop 3 invariant counters: len(plannedUpdatedReplicasForBatches) == len(r.batches) && fresh(plannedUpdatedReplicasForBatches) && -2 <= i && i < len(plannedUpdatedReplicasForBatches)
+//@ loop 3 invariant unlabelled_are_pods: forall q :: 0 <= q && q < len(updatedButUnpatchedPods) ==> updatedButUnpatchedPods[q] != nil
+//@ loop 4 invariant counters: len(plannedUpdatedReplicasForBatches) == len(r.batches) && fresh(plannedUpdatedReplicasForBatches) && 0 <= i && i < len(plannedUpdatedReplicasForBatches)
+//@ loop 4 invariant unlabelled_are_pods: forall q :: 0 <= q && q < len(updatedButUnpatchedPods) ==> updatedButUnpatchedPods[q] != nil
